@@ -1188,6 +1188,13 @@ def _get_cached_arg_spec(fn: Callable[..., Any]) -> inspect.FullArgSpec:
     except TypeError:
       # `fn` might be a callable object.
       arg_spec = inspect.getfullargspec(fn.__call__)
+    # `getfullargspec` lists the already bound first parameter (`self`/`cls`) of
+    # a bound method, and of the `__call__` of a callable object. Callers can't
+    # supply it, so it isn't one of the positional parameters.
+    bound = fn if inspect.ismethod(fn) else getattr(fn, '__call__', None)
+    if (not inspect.isfunction(fn) and not inspect.isclass(fn) and
+        inspect.ismethod(bound) and arg_spec.args):
+      arg_spec = arg_spec._replace(args=arg_spec.args[1:])
     _ARG_SPEC_CACHE[fn] = arg_spec
   return arg_spec
 
